@@ -485,8 +485,13 @@ def generate(ctx):
     for _ in range(ctx.n(40, 500)):
         nparts = rng.randint(1, 6)
         keys = [sorted(rng.randint(0, 30) for _ in range(rng.choice([0, 1, 2, 5, 12, 30]))) for _ in range(nparts)]
-        # 16 bytes per row (int64 index + int64 column): sizes around one row … several partitions
-        yield "repart_size", {"parts": keys, "size": rng.choice([8, 16, 33, 64, 100, 200, 500, 2000])}
+        # 16 bytes per row (int64 index + int64 column): sizes around one row … several partitions, and often exactly
+        # at / one off the memory usage of one of the partitions (the `//` boundary of _nsplits, the `<=` of iter_chunks)
+        size = rng.choice([8, 16, 33, 64, 100, 200, 500, 2000])
+        if rng.random() < 0.6:
+            r = rng.choice([len(k) for k in keys if k] or [1]) * rng.choice([1, 1, 2])
+            size = max(1, 16 * r + rng.choice([-1, 0, 1]))
+        yield "repart_size", {"parts": keys, "size": size}
     # partition counts whose ratio is not exactly representable (15->11, 26->23, 30->11 ...): API level
     hard = [(o, n) for o in range(2, 41) for n in range(1, o) if int(n * (o / n)) != o or [int(i * (o / n)) for i in range(n + 1)] != [i * o // n for i in range(n + 1)]]
     picks = hard if ctx.thorough() else rng.sample(hard, min(len(hard), 12))
